@@ -156,7 +156,7 @@ func c15add(c *Ctx) {
 		return true, ""
 	})
 	if held && iters < 2 {
-		c.R.Undecided(rule, hashPkg+".AddWithReplicas#iterations", "the replica loop is recognised", fmt.Sprintf("%d iterations", iters))
+		c.R.Undecided(rule, hashPkg+".AddWithReplicas#iterations", "the replica loop hashes each virtual node with h.hashFunc(repr(node)+Itoa(i)) — the function Remove and Get use", fmt.Sprintf("%d iterations recognised: the virtual nodes are not hashed through h.hashFunc (with a custom hash function Remove would never find them)", iters))
 	}
 	// comparator ascending
 	for _, cl := range f.AnonFuncs {
